@@ -48,6 +48,7 @@ class Built(object):
         self.exact = None
         self.exact_error = None
         self.names_handed_out = []   # (statement index, "CC.CODE", var, returned name)
+        self.stated_suppliers = {}   # "CC.MARKET" -> ["CC.SUPPLIER", ...] as registered with AddSupplier
         self.stated = {}             # ("CC.CODE", var) -> the texts the program stated for it (templates, '{ref:var}' unresolved)
         self.has_ic = False
         self.main_ran = False
@@ -163,6 +164,7 @@ def execute(program, solve=True, oracle=True, horizon=None, stop_before_main=Fal
             elif op == 'SetAttr':
                 setattr(sec(st['sector']), st['attr'], arg(st['value']))
             elif op == 'AddSupplier':
+                b.stated_suppliers.setdefault(st['market'], []).append(st['supplier'])
                 sec(st['market']).AddSupplier(sec(st['supplier']), subst(st.get('eqn', ''), idx))
             elif op == 'AddMarket':
                 sec(st['sector']).AddMarket(sec(st['market']))
